@@ -4,7 +4,7 @@
 # /verif): applies, builds, the full suite passes, the demo fails with it and passes without it.
 # On success copies patch/demo/meta to /verif/seeded/<prop>-<k>/ . Removes the worktree afterwards.
 set -u
-out="$1"; k="$2"; prop="$3"
+out="$1"; k="$2"; prop="$3"; sid="${4:-$2}"
 wt="/tmp/confirm-$prop-$k-$$"
 export CARGO_NET_OFFLINE=true
 log="/tmp/confirm-$prop-$k.log"
@@ -24,7 +24,7 @@ failed=$(echo "$suite" | sed -E 's/.* ([0-9]+) failed.*/\1/' | paste -sd+ | bc)
 ( cd "$out" && bash "demo$k.sh" "$wt" ) >>"$log" 2>&1; patched_rc=$?
 echo "$prop-$k: suite passed=$passed failed=$failed demo_clean=$clean_rc demo_patched=$patched_rc"
 if [ "$passed" = "3212" ] && [ "$failed" = "0" ] && [ "$clean_rc" = "0" ] && [ "$patched_rc" != "0" ]; then
-  d="/verif/seeded/$prop-$k"; mkdir -p "$d"
+  d="/verif/seeded/$prop-$sid"; mkdir -p "$d"
   cp "$out/patch$k.diff" "$d/patch.diff"
   cp "$out/demo$k.sh" "$d/demo.sh"
   # supporting files of the demo
